@@ -5,6 +5,7 @@ import (
 	"bytes"
 	"io"
 	"net/http"
+	"os"
 	"sort"
 	"strings"
 	"sync"
@@ -66,6 +67,22 @@ func Source(b []byte, mode int) io.Reader {
 		br.Seek(int64(len(pre)), io.SeekStart)
 		return br
 	}
+	if mode == SourceFile || mode == SourceFileAdvanced {
+		pre := 0
+		if mode == SourceFileAdvanced {
+			pre = 61
+		}
+		if f := fileSource(b, pre); f != nil {
+			return f
+		}
+		return bytes.NewReader(b)
+	}
+	if mode == SourcePipe {
+		if f := pipeSource(b); f != nil {
+			return f
+		}
+		return &PlainReader{B: append([]byte{}, b...), Chunk: 4096}
+	}
 	if mode == SourceBufio {
 		// a *bufio.Reader with the smallest buffer (Peek / Discard / ReadSlice are tempting fast paths)
 		return bufio.NewReaderSize(&PlainReader{B: append([]byte{}, b...), Chunk: 1 << 20}, 16)
@@ -93,11 +110,65 @@ const (
 	SourceBufio        = -102
 )
 
+// SourceFile, SourceFileAdvanced, SourcePipe: the input arrives as an *os.File - a regular file
+// at offset 0, a regular file whose offset has been advanced past a preamble, the read end of a
+// pipe (Stat().Size() is 0, Seek fails, reads are short). Concrete-type fast paths for files
+// (size from Stat, ReadAt, mmap-like whole-file reads) must behave like any other reader.
+// Recycle closes them.
+const (
+	SourceFile         = -103
+	SourceFileAdvanced = -104
+	SourcePipe         = -105
+)
+
+var (
+	srcDirOnce sync.Once
+	srcDir     string
+)
+
+func fileSource(b []byte, pre int) *os.File {
+	srcDirOnce.Do(func() { srcDir, _ = os.MkdirTemp("", "verif-src-") })
+	f, err := os.CreateTemp(srcDir, "in-")
+	if err != nil {
+		return nil
+	}
+	os.Remove(f.Name()) // the open descriptor keeps the (now nameless) file alive
+	if pre > 0 {
+		f.Write(Filler(pre, uint64(len(b))+5))
+	}
+	if _, err := f.Write(b); err != nil {
+		f.Close()
+		return nil
+	}
+	if _, err := f.Seek(int64(pre), io.SeekStart); err != nil {
+		f.Close()
+		return nil
+	}
+	return f
+}
+
+func pipeSource(b []byte) *os.File {
+	r, w, err := os.Pipe()
+	if err != nil {
+		return nil
+	}
+	data := append([]byte{}, b...)
+	go func() {
+		w.Write(data) // returns with an error once the read end is closed (Recycle or finalizer)
+		w.Close()
+	}()
+	return r
+}
+
 var bufBacking sync.Map // *bytes.Buffer -> its backing array
 
 // Recycle overwrites the array behind a reader made by Source(b, SourceBuffer); a no-op for
 // every other reader.
 func Recycle(r io.Reader) {
+	if f, ok := r.(*os.File); ok {
+		f.Close()
+		return
+	}
 	bb, ok := r.(*bytes.Buffer)
 	if !ok {
 		return
@@ -123,12 +194,12 @@ func SourceModeOf(b []byte) int {
 	if h < 0 {
 		h = -h
 	}
-	return []int{0, 0, SourceSeekAdvanced, SourceBufio, SourceBuffer, SourceBuffer, 1, 2, 7, 512, 4096, 4097}[h%12]
+	return []int{0, 0, SourceSeekAdvanced, SourceBufio, SourceBuffer, SourceBuffer, 1, 2, 7, 512, 4096, 4097, SourceFile, SourceFileAdvanced, SourcePipe, SourcePipe}[h%16]
 }
 
 // DrawSourceMode draws a reader mode for Source.
 func DrawSourceMode(t *rapid.T, label string) int {
-	return rapid.SampledFrom([]int{0, 0, SourceBuffer, SourceSeekAdvanced, SourceBufio, 1, 2, 7, 512, 4096, 1 << 20, 1<<20 + 1}).Draw(t, label)
+	return rapid.SampledFrom([]int{0, 0, SourceBuffer, SourceSeekAdvanced, SourceBufio, 1, 2, 7, 512, 4096, 1 << 20, 1<<20 + 1, SourceFile, SourceFileAdvanced, SourcePipe}).Draw(t, label)
 }
 
 // BuildHeader inserts the fields with http.Header.Add (the repository's own calling
